@@ -271,6 +271,78 @@ def buildUDPHeader (c : IPText) (dstHost : Text) (dstPort : Nat) (payload : Byte
   | none =>
     [0, 0, 0, u8 socks5.AddrDomain, u8 (dstHost.length % 256)] ++ dstHost ++ putBe16 dstPort ++ payload
 
+/-! ### `Listener.handleConnection`: what is done with a parsed request
+
+`handleConnection` = `Handshake`, then `handleConnect` (CONNECT: the tunnel creator gets the parsed
+host and port, the listener's mapping identity and the connection itself, i.e. every byte the
+application sent after the request) or `handleUDPAssociate` (the relay creator; reply with the
+relay's address).  The creators are parameters (`ConnCfg`): present or nil, succeed or fail. -/
+
+structure ConnCfg where
+  mapping : Text          -- ListenerConfig.MappingID
+  target : Nat            -- ListenerConfig.TargetClientID
+  secret : Text           -- ListenerConfig.SecretKey
+  hasTunnel : Bool        -- tunnelCreator != nil
+  tunnelOk : Bool         -- CreateSOCKS5Tunnel calls onSuccess and returns nil / returns an error
+  hasRelay : Bool         -- udpRelayCreator != nil
+  relayOk : Bool          -- CreateUDPRelay returns bindAddr / an error
+  bindIP : Bytes          -- bindAddr.IP (4 or 16 bytes)
+  bindPort : Nat          -- bindAddr.Port
+deriving DecidableEq, Repr
+
+inductive ConnEv where
+  /-- `CreateSOCKS5Tunnel(conn, mapping, target, host, port, secret, _)`; `data` = what is still readable from `conn`. -/
+  | tunnel (mapping : Text) (target : Nat) (host : Text) (port : Nat) (secret : Text) (data : Bytes)
+  /-- `CreateUDPRelay(conn, mapping, target, secret)`. -/
+  | relay (mapping : Text) (target : Nat) (secret : Text)
+deriving DecidableEq, Repr
+
+structure ConnObs where
+  events : List ConnEv
+  written : Bytes
+  closed : Bool           -- `conn.Close()` called by the listener
+deriving DecidableEq, Repr
+
+/-- A Go string constant as bytes (ASCII). -/
+def asciiText (s : String) : Text := s.toList.map (fun ch => UInt8.ofNat ch.toNat)
+
+/-- `SendSuccess`: bound address `0.0.0.0:0`. -/
+def sendSuccess : Bytes :=
+  [u8 socks5.Version, u8 socks5.RepSuccess, 0, u8 socks5.AddrIPv4, 0, 0, 0, 0, 0, 0]
+
+/-- `net.IP.To4()`. -/
+def to4 (ip : Bytes) : Option Bytes :=
+  if ip.length = 4 then some ip else if isV4Mapped ip then some (ip.drop 12) else none
+
+/-- `SendSuccessWithBind`: `ip := bindAddr.IP.To4(); if ip == nil { ip = net.IPv4zero }`. -/
+def sendSuccessWithBind (ip : Bytes) (port : Nat) : Bytes :=
+  [u8 socks5.Version, u8 socks5.RepSuccess, 0, u8 socks5.AddrIPv4] ++ (to4 ip).getD [0, 0, 0, 0] ++ putBe16 port
+
+/-- `handleConnect` (`w`: written so far; `data`: the rest of the connection). -/
+def handleConnect (cfg : ConnCfg) (w : Bytes) (host : Text) (port : Nat) (data : Bytes) : ConnObs :=
+  if host = asciiText socks5.VirtualDNSIP ∧ port = 853 then ⟨[], w ++ sendError socks5.RepFailure, true⟩
+  else if ¬ cfg.hasTunnel then ⟨[], w ++ sendError socks5.RepFailure, true⟩
+  else if cfg.tunnelOk then
+    ⟨[.tunnel cfg.mapping cfg.target host port cfg.secret data], w ++ sendSuccess, false⟩
+  else ⟨[.tunnel cfg.mapping cfg.target host port cfg.secret data], w ++ sendError socks5.RepFailure, true⟩
+
+/-- `handleUDPAssociate`. -/
+def handleUDPAssociate (cfg : ConnCfg) (w : Bytes) : ConnObs :=
+  if ¬ cfg.hasRelay then ⟨[], w ++ sendError socks5.RepCmdNotSupp, true⟩
+  else if cfg.relayOk then
+    ⟨[.relay cfg.mapping cfg.target cfg.secret], w ++ sendSuccessWithBind cfg.bindIP cfg.bindPort, false⟩
+  else ⟨[.relay cfg.mapping cfg.target cfg.secret], w ++ sendError socks5.RepFailure, true⟩
+
+/-- `handleConnection(conn)` where `conn` delivers `s`. -/
+def handleConnection (c : IPText) (cfg : ConnCfg) (s : Src) : ConnObs :=
+  match (handshake c s).1.out with
+  | .fail _ => ⟨[], (handshake c s).1.written, true⟩
+  | .ok r =>
+    if r.cmd = socks5.CmdConnect then
+      handleConnect cfg (handshake c s).1.written r.host r.port (handshake c s).2.flat
+    else if r.cmd = socks5.CmdUDPAssoc then handleUDPAssociate cfg (handshake c s).1.written
+    else ⟨[], (handshake c s).1.written ++ sendError socks5.RepCmdNotSupp, true⟩
+
 /-! ### `UDPRelay.readLoop` / `handlePacket`: datagrams in flight over the shared read buffer
 
 `readLoop` reads every datagram into one buffer `buf`, and starts one goroutine per datagram which
@@ -344,5 +416,38 @@ def Relay.init (ds : List Bytes) : Relay := ⟨[], ds, [], []⟩
 
 /-- Nothing left to do. -/
 def Relay.quiescent (s : Relay) : Bool := s.queue.isEmpty && s.jobs.isEmpty
+
+/-! ### Where a parsed datagram goes, and the way back
+
+`handlePacket`: port 53 with a DNS handler installed goes over the control channel (`QueryDNS` with
+server `host:53`, the virtual DNS address replaced by the default server); everything else to the
+destination's tunnel.  Way back: `receiveLoop` / `handleDNSQuery` wrap the answer with
+`buildUDPHeader(dstHost, dstPort, answer)` — the original host text, also for the virtual DNS. -/
+
+inductive Route where
+  | tunnel (d : UDest)
+  | dns (server : Text) (query : Bytes)
+deriving DecidableEq, Repr
+
+def isDnsRoute (dns : Bool) (d : UDest) : Bool := d.port == 53 && dns
+
+def dnsServer (host : Text) : Text :=
+  (if host = asciiText socks5.VirtualDNSIP then asciiText socks5.DefaultDNSServer else host) ++ [58] ++ decText 53
+
+def route (dns : Bool) (d : UDest) : Route :=
+  if isDnsRoute dns d then .dns (dnsServer d.host) d.payload else .tunnel d
+
+/-- The datagram sent back to the application for the answer `resp` to the packet `d`. -/
+def replyDatagram (c : IPText) (d : UDest) (resp : Bytes) : Bytes := buildUDPHeader c d.host d.port resp
+
+/-! ### `SocksAdapter.handleSocksConnection` without a session
+
+The whole per-connection function: negotiate; then, no session being attached to the adapter, answer
+"general SOCKS server failure" and close (`defer clientConn.Close()` closes in every case). -/
+
+def adConnection (c : IPText) (cfg : AdCfg) (s : Src) : Bytes × Src :=
+  match (adNegotiate c cfg s).1.out with
+  | .ok _ => ((adNegotiate c cfg s).1.written ++ sendReply0 adapter.socksRepServerFailure, (adNegotiate c cfg s).2)
+  | .fail _ => ((adNegotiate c cfg s).1.written, (adNegotiate c cfg s).2)
 
 end Tunnox.C20
